@@ -35,8 +35,9 @@
                   ErrorFunction gradients (w.r.t. parameters; linear, offset-free, tanh and logistic models), reference
                   log-sum-exp for cross-entropy incl. logits of magnitude 800, brute-force AUC.
 """
-import os, sys, re, math
+import os, sys, re, math, random, struct
 from fractions import Fraction
+from decimal import Decimal, localcontext
 sys.path.insert(0, os.path.dirname(os.path.abspath(__file__)))
 from vlib import *
 
@@ -51,7 +52,10 @@ RTOL = 1e-12
 # the harness switches thread counts with omp_set_num_threads (up to 16 on a shared machine): let idle threads sleep instead of spinning
 OMPENV = {"OMP_WAIT_POLICY": "PASSIVE", "GOMP_SPINCOUNT": "0"}
 STATS = {"auc_exact": 0, "auc_rounded": 0, "fd_entries_checked": 0, "fd_entries_skipped_kink_or_roundoff": 0, "exact_cases": 0, "tolerance_cases": 0, "minibatch_lines": 0}
-NAMES = {"sq": "SquaredLoss<RealVector,RealVector>", "sqc": "SquaredLoss<RealVector,unsigned int>", "hinge": "HingeLoss", "sqhinge": "SquaredHingeLoss",
+CEFAM = ("ce", "cev", "cef", "cevf")      # the losses with an exponential formulation (all label / output type variants)
+F32 = ("cef", "cevf")                      # single-precision output type: compared at 2e-6
+CTXKINDS = "EWRBFNMPZA"                    # lines that evaluate something over a data set: calling-context stage
+NAMES = {"cef": "CrossEntropy<unsigned int,FloatVector>", "cevf": "CrossEntropy<FloatVector,FloatVector>", "sq": "SquaredLoss<RealVector,RealVector>", "sqc": "SquaredLoss<RealVector,unsigned int>", "hinge": "HingeLoss", "sqhinge": "SquaredHingeLoss",
          "eps": "EpsilonHingeLoss", "sqeps": "SquaredEpsilonHingeLoss", "huber": "HuberLoss", "abs": "AbsoluteLoss", "ce": "CrossEntropy<unsigned int,RealVector>",
          "cev": "CrossEntropy<RealVector,RealVector>", "zov": "ZeroOneLoss<unsigned int,RealVector>", "zo": "ZeroOneLoss<unsigned int,unsigned int>", "disc": "DiscreteLoss"}
 
@@ -200,11 +204,13 @@ def gen_loss_case(rng, exact=True):
         lines.append("D %s %s %d | %s | %s" % (name, param, dim, " ".join(labs), " ".join(preds)))
     return lines
 
-def gen_ef_case(rng, exact=True):
+def gen_ef_case(rng, exact=True, ctx=False):
+    """ctx: the stream for the calling-context stage -- 7..12 elements cut into 1, 2, 3 and 7 batches of unequal sizes"""
     name = rng.choice(TABLE if exact else TABLE + ["ce", "ce", "cev"])
     nin = rng.choice([1, 2, 3]); nout = rng.choice([1, 2, 3])
     if name == "cev": nout = rng.choice([2, 3])
     n = rng.choice([1, 2, 3, 4, 6, 8] if exact else [2, 3, 5, 7, 9])
+    if ctx: n = rng.choice([7, 8, 9, 10, 12])
     param = "0"
     if name in ("eps", "sqeps"): param = fq(rng.choice([0, Fraction(1, 2), 1]))
     if name == "huber": param = "64" if exact else fq(rng.choice([Fraction(1, 2), 1, 4]))
@@ -226,6 +232,11 @@ def gen_ef_case(rng, exact=True):
         if name == "sqc" and nout == 1: labs = ["0"] * n
     body = "%s | %s | %s" % (" ".join(params), " ".join(ins), " ".join(labs))
     P = lambda: " ".join(map(str, partition(rng, n)))
+    if ctx:
+        nbs = []
+        def P():
+            if not nbs: nbs.extend(rng.sample([1, 2, 3, 7], 4))
+            return " ".join(map(str, composition(rng, n, nbs.pop())))
     lines = []
     if exact:
         lines.append("E %s %s 1 %d %d | %d | %s" % (name, param, nin, nout, n, body))
@@ -414,10 +425,279 @@ def gen_zw_case(rng):
     return ["Z zov %s %d | %s | %s | %s | %s" % (thr, dim, " ".join(map(str, partition(rng, n))), " ".join(labs), " ".join(preds), " ".join(map(fq, w)))]
 
 
+# ------------------------------------------------------------------------------------------------ extreme arguments
+# thresholds of the double exponential: exp overflows above 709.782712893384, underflows to 0 below -745.13; 1 + exp(-z) = 1 from z = 36.04;
+# the coded cut-off of the one-output cross-entropy is label*x < -200; single precision: 88.72 / -103.97 / 16.6
+XMAGS = [709.78, 709.79, 709.782712893384, 709.7827128933841, 710.0, 720.0, 745.13, 745.14, 746.0, 800.0, 1e3, 1e5, 36.0, 37.5, 199.999, 200.0, 200.001]
+XMAGS32 = XMAGS + [88.7, 88.8, 103.9, 104.0, 87.3, 16.6]
+XQ = [Fraction(1000), Fraction(100000), Fraction(2839, 4), Fraction(2981, 4), Fraction(710), Fraction(746), Fraction(200)]
+
+def f32r(x):
+    return struct.unpack("f", struct.pack("f", x))[0]
+
+def xval(rng, mags):
+    m = rng.choice(mags)
+    if rng.random() < 0.25: m += rng.uniform(-0.02, 0.02)
+    return m if rng.random() < 0.5 else -m
+
+def gen_extreme_case(rng):
+    """cross-entropy family (one output, several outputs, class labels and probability-vector labels, double and single precision
+    outputs): predictions of magnitude up to 1e3 / 1e5 and next to the overflow / underflow thresholds of exp on the right and on the
+    wrong side of the label, zero predictions, batches mixing extreme and ordinary rows; L line (batch and single-element entry
+    points, both code paths) and AbstractLoss::eval(Data,Data) on partitions of the same rows"""
+    which = rng.choice(["ce1", "ce1", "ce1", "ce", "ce", "cev", "cev", "cef1", "cef", "cevf"])
+    name = which.rstrip("1"); dim = 1 if which.endswith("1") else rng.choice([2, 3, 4])
+    mags = XMAGS32 if name in F32 else XMAGS
+    n = rng.choice([1, 2, 3, 4, 6])
+    labs, preds = [], []
+    forced = rng.randrange(n)           # at least one extreme row
+    for i in range(n):
+        r = rng.random(); kind = "x" if (i == forced or r < 0.55) else ("z" if r < 0.67 else "o")
+        if kind == "z": row = [rng.choice([0.0, -0.0]) for _ in range(dim)]
+        elif kind == "o": row = [rng.gauss(0, 1) * rng.choice([1, 1, 10]) for _ in range(dim)]
+        else:
+            base = rng.choice([0.0, 1.0, 10.0])
+            row = [rng.gauss(0, 1) * base for _ in range(dim)]
+            if dim > 1 and rng.random() < 0.15:
+                v = xval(rng, mags); row = [v] * dim                      # all logits equal and extreme
+            else:
+                for j in rng.sample(range(dim), rng.randint(1, dim)): row[j] = xval(rng, mags)
+        if name in ("cev", "cevf"):
+            m = rng.random()
+            if m < 0.35: l = [0.0] * dim; l[rng.randrange(dim)] = 1.0
+            elif m < 0.5: l = [1.0 / dim] * dim
+            else:
+                w = [rng.random() for _ in range(dim)]; sw = sum(w); l = [x / sw for x in w]
+            labs += [float(x).hex() for x in l]
+        else:
+            labs.append(str(rng.randint(0, 1) if dim == 1 else rng.randrange(dim)))
+        preds += [float(x).hex() for x in row]
+    lines = ["L %s 0 %d | %s | %s" % (name, dim, " ".join(labs), " ".join(preds))]
+    if name not in F32:
+        for _ in range(2):
+            lines.append("M %s 0 %d %d | %s | %s | %s" % (name, dim, rng.choice(THREADS), " ".join(map(str, partition(rng, n))), " ".join(labs), " ".join(preds)))
+    return lines
+
+def gen_extreme_exact_case(rng):
+    """the table losses without an exponential (squared, hinge family, epsilon-insensitive, Huber, absolute) on the same magnitudes, as
+    dyadic rationals: compared exactly with the Q model (whose gradient theorems are proved) and by the exact monitors"""
+    name = rng.choice(["sq", "sqc", "hinge", "sqhinge", "eps", "sqeps", "huber", "abs", "hinge", "sqhinge", "huber"])
+    dim = rng.choice([1, 2, 3]) if name in VV else rng.choice([1, 1, 2, 3, 4])
+    n = rng.choice([1, 2, 3, 4, 6]); param = "0"
+    if name in ("eps", "sqeps"): param = fq(rng.choice([0, Fraction(1, 2), 1, 2]))
+    if name == "huber": param = fq(rng.choice([Fraction(1, 2), 1, 2, 4]))
+    labs, preds = [], []
+    forced = rng.randrange(n)
+    xq = lambda: rng.choice(XQ) * rng.choice([1, -1])
+    for i in range(n):
+        r = rng.random(); kind = "x" if (i == forced or r < 0.55) else ("z" if r < 0.67 else "o")
+        if name in VV:
+            l = [dyq(rng, -3, 3) for _ in range(dim)]
+            if name in ("huber", "abs"):     # prediction = label + s * (integer vector of integer length): the square root is exact
+                v = rng.choice(PYTH[dim]); s = xq() if kind == "x" else (0 if kind == "z" else rng.choice([0, Fraction(1, 2), 1, 2, -1]))
+                p_ = [a + s * b for a, b in zip(l, v)]
+            elif kind == "z": p_ = [Fraction(0)] * dim
+            elif kind == "x": p_ = [rng.choice([a + xq(), xq(), a]) for a in l]
+            else: p_ = [rng.choice([a, a + dyq(rng, -3, 3), dyq(rng, -4, 4)]) for a in l]
+            labs += [fq(x) for x in l]; preds += [fq(x) for x in p_]
+        else:
+            c = rng.randint(0, 1) if dim == 1 else rng.randrange(dim)
+            if name == "sqc" and dim == 1: c = 0
+            labs.append(str(c))
+            row = [Fraction(0)] * dim if kind == "z" else [dyq(rng, -3, 3) for _ in range(dim)]
+            if kind == "x":
+                for j in rng.sample(range(dim), rng.randint(1, dim)): row[j] = xq()
+            preds += [fq(x) for x in row]
+    lines = ["L %s %s %d | %s | %s" % (name, param, dim, " ".join(labs), " ".join(preds))]
+    for _ in range(2):
+        lines.append("M %s %s %d %d | %s | %s | %s" % (name, param, dim, rng.choice(THREADS), " ".join(map(str, partition(rng, n))), " ".join(labs), " ".join(preds)))
+    return lines
+
+def gen_nll_extreme_case(rng):
+    """NegativeLogLikelihood (no exponential, but a logarithm with a clamp at 1e-100): LinearModel(1,1) with weight 1 and offset 0, so the
+    model's prediction IS the input: probabilities at, just below and just above the clamp, denormal, zero, negative, huge, mixed with
+    ordinary ones.  Monitored only (mon_P); the inputs are not dyadic rationals of moderate size, so the Q model is not run."""
+    n = rng.choice([1, 2, 3, 4, 6])
+    c = 1e-100
+    pool = [c, math.nextafter(c, 0.0), math.nextafter(c, 1.0), 1e-101, 1e-99, 1e-300, 5e-324, 0.0, -1.0, -1e-100, 1e300, 1.7976931348623157e308, 1.0, 1e-50]
+    xs = [rng.choice(pool) if rng.random() < 0.6 else rng.uniform(0.05, 3.0) for _ in range(n)]
+    body = "1 0 | %s" % " ".join(float(x).hex() for x in xs)
+    lines = ["P 1 1 | %d | %s" % (n, body)]
+    for _ in range(2):
+        lines.append("P %d 1 | %s | %s" % (rng.choice(THREADS), " ".join(map(str, partition(rng, n))), body))
+    return lines
+
+def composition(rng, n, nb):
+    """n elements in nb batches of unequal sizes (where that is possible)"""
+    nb = max(1, min(nb, n)); parts = [n]
+    for _ in range(30):
+        cuts = sorted(rng.sample(range(1, n), nb - 1)); parts = [b - a for a, b in zip([0] + cuts, cuts + [n])]
+        if nb == 1 or nb == n or len(set(parts)) > 1: break
+    return parts
+
+def ce_reference(name, dim, labs, preds):
+    """the mathematically exact loss and its derivative w.r.t. the prediction for every row, evaluated with 60 significant digits
+    (decimal arithmetic; every double is an exact decimal): returns [(loss, gradient row, largest |logit|)] as doubles"""
+    out = []
+    with localcontext() as cx:
+        cx.prec = 60
+        one = Decimal(1)
+        for i in range(len(preds) // dim):
+            p = [Decimal(x) for x in preds[i * dim:(i + 1) * dim]]
+            if name in ("ce", "cef") and dim == 1:
+                y = 2 * int(labs[i]) - 1; z = -y * p[0]                                   # ln(1 + exp(-y x))
+                loss = (z + (one + (-z).exp()).ln()) if z > 0 else (one + z.exp()).ln()
+                grad = [-y / (one + (-z).exp())]                                          # -y (1 - sigmoid(y x)) = -y / (1 + exp(y x))
+            else:
+                m = max(p); e = [(x - m).exp() for x in p]; s = sum(e); lse = s.ln() + m
+                if name in ("ce", "cef"):
+                    c = int(labs[i]); loss = lse - p[c]; grad = [a / s - (1 if j == c else 0) for j, a in enumerate(e)]
+                else:
+                    tl = [Decimal(x) for x in labs[i * dim:(i + 1) * dim]]
+                    loss = lse - sum(a * b for a, b in zip(tl, p)); grad = [a / s - b for a, b in zip(e, tl)]
+            out.append((float(loss), [float(g) for g in grad], max(abs(float(x)) for x in p)))
+    return out
+
+def mon_ref(line, out):
+    """cross-entropy family on one batch: everything finite (the exact values are representable), every reported value = the exact
+    loss, every reported gradient = the exact derivative of the loss (batch and single-element entry points, both code paths)"""
+    s = sections(line); hd = s[0]; name = hd[1]; d = toks(out)
+    if name not in CEFAM or "v" not in d or d.get("dv", "-") == "-": return []
+    dim = int(hd[3]); f32 = name in F32
+    rd = (lambda x: f32r(x)) if f32 else (lambda x: x)
+    try:
+        preds = [rd(float(pq(x))) for x in s[2]]
+        labs = [int(x) for x in s[1]] if name in ("ce", "cef") else [rd(float(pq(x))) for x in s[1]]
+    except (OverflowError, ValueError):
+        return []
+    if not all_finite(preds) or max([abs(x) for x in preds] + [0.0]) > 1e6: return []
+    ref = ce_reference(name, dim, labs, preds); n = len(ref)
+    v, dv = fh(d["v"]), fh(d["dv"]); ev, edv, g, eg = fhl(d["ev"]), fhl(d["edv"]), fhl(d["g"]), fhl(d["eg"])
+    tol = 2e-6 if f32 else RTOL
+    row = lambda i: "element %d (label %s, prediction %s)" % (i, s[1][i] if name in ("ce", "cef") else [float(pq(x)) for x in s[1][i * dim:(i + 1) * dim]], preds[i * dim:(i + 1) * dim])
+    if len(ev) != n or len(edv) != n or len(g) != n * dim or len(eg) != n * dim:
+        return ["L:%s:shape| %s: %d elements, got %d / %d values and %d / %d gradient entries" % (name, shape(line), n, len(ev), len(edv), len(g), len(eg))]
+    tot = math.fsum(r[0] for r in ref)
+    for what, xs, per in (("eval on the batch", [v], 0), ("evalDerivative on the batch (value)", [dv], 0), ("single-element eval", ev, 1),
+                          ("single-element evalDerivative (value)", edv, 1), ("batch gradient", g, dim), ("single-element gradient", eg, dim)):
+        for j, x in enumerate(xs):
+            if finite(x): continue
+            if per == 0: return ["L:%s:not-finite| %s: %s returns %r; the sum of the exact element losses is %r (labels %s, predictions %s)" % (name, shape(line), what, x, tot, s[1], preds)]
+            i = j // per
+            return ["L:%s:not-finite| %s: %s returns %r at %s; the exact loss is %r and its derivative w.r.t. the prediction %r" % (name, shape(line), what, x, row(i), ref[i][0], ref[i][1])]
+    for i, (l_, gr, sc) in enumerate(ref):
+        for what, x in (("single-element eval", ev[i]), ("single-element evalDerivative", edv[i])):
+            if abs(x - l_) > tol * max(1.0, sc, abs(l_)):
+                return ["L:%s:value-vs-exact| %s: %s returns %r at %s, the loss evaluated with 60 digits is %r" % (name, shape(line), what, x, row(i), l_)]
+        for what, xs in (("batch evalDerivative", g), ("single-element evalDerivative", eg)):
+            for j in range(dim):
+                if abs(xs[i * dim + j] - gr[j]) > tol:
+                    return ["L:%s:gradient-is-not-derivative| %s: %s returns the gradient entry %r for output %d of %s, the derivative of the loss w.r.t. that output (60 digits) is %r" % (
+                        name, shape(line), what, xs[i * dim + j], j, row(i), gr[j])]
+    tsc = math.fsum(max(1.0, r[2], abs(r[0])) for r in ref)
+    for what, x in (("eval", v), ("evalDerivative", dv)):
+        if abs(x - tot) > tol * tsc:
+            return ["L:%s:batch-value-vs-exact| %s: %s on the batch returns %r, the sum of the exact element losses is %r" % (name, shape(line), what, x, tot)]
+    STATS["extreme_reference_rows"] = STATS.get("extreme_reference_rows", 0) + n
+    return []
+
+
+# ------------------------------------------------------------------------------------------------ calling-context stage
+CTXWHAT = {"c2o": "one thread of a parallel region of 2 threads (the other idle)", "c3o": "one thread of a parallel region of 3 threads (the others idle)",
+           "c2a": "every thread of a parallel region of 2 threads at the same time, each on its own instance", "c3a": "every thread of a parallel region of 3 threads at the same time, each on its own instance"}
+CTXERR = ("EXC", "STDEXC", "UNKEXC", "NOTRUN")
+
+def ctx_parse(sv):
+    """`v:dv:g` or a single value -> list of floats, or the exception marker"""
+    if sv in CTXERR: return sv
+    parts = sv.split(":")
+    if len(parts) == 1: return [fh(parts[0])]
+    return [fh(parts[0]), fh(parts[1])] + fhl(parts[2])
+
+def ctx_same(a, b, exact):
+    if isinstance(a, str) or isinstance(b, str): return a == b
+    if len(a) != len(b): return False
+    if exact: return all(x == y or (math.isnan(x) and math.isnan(y)) for x, y in zip(a, b))
+    if len(a) <= 2: return all(close(x, y, 0, RTOL) for x, y in zip(a, b))
+    return all(close(x, y, 0, RTOL) for x, y in zip(a[:2], b[:2])) and vclose(a[2:], b[2:], RTOL)
+
+def ctx_main_values(line, out):
+    """the result of the call from the main thread in the form of ctx_parse"""
+    d = toks(out); k = line[0]
+    if out.split()[1:2] in (["EXC"], ["STDEXC"]): return out.split()[1]
+    try:
+        if k in "EWRBFNP": return [fh(d["v"]), fh(d["dv"])] + fhl(d["g"])
+        return [fh(d[{"M": "m", "Z": "z", "A": "a"}[k]])]
+    except KeyError:
+        return None
+
+def ctx_what(line):
+    k = line[0]
+    if k in "EWRBFN": return "ErrorFunction %s" % shape(line)
+    if k == "M": return "AbstractLoss::eval(Data,Data) %s" % shape(line)
+    if k == "P": s = sections(line); return "NegativeLogLikelihood threads=%s batches=%s" % (s[0][1], ",".join(s[1]))
+    if k == "Z": return "ZeroOneLoss::eval(Data,Data,weights) batches=%s" % ",".join(sections(line)[1])
+    return "NegativeAUC batches=%s" % ",".join(sections(line)[1])
+
+def ctx_fmt(x):
+    if isinstance(x, str): return x
+    if len(x) == 1: return "%r" % x[0]
+    return "eval = %r, evalDerivative value = %r, derivative = %r" % (x[0], x[1], x[2:])
+
+def mon_ctx(line, main_out, ctx_out):
+    """the result must not depend on the calling context: evaluated inside a parallel region (by one thread, by all threads on their own
+    copies) = serial reference = the call from the main thread; exact on exactly representable data, 1e-12 otherwise.
+    returns (messages, team sizes ok)"""
+    k = line[0]
+    if k not in CTXKINDS: return [], True
+    name = line.split()[1] if k in "EWRBFNM" else {"P": "nll", "Z": "zov", "A": "auc"}[k]
+    main = ctx_main_values(line, main_out)
+    if ctx_out.split()[1:2] == ["-"] or "cs" not in toks(ctx_out):
+        # nothing was evaluated: legitimate only if the call from the main thread failed as well
+        if isinstance(main, list): return ["%s:%s:calling-context-missing| %s: evaluated from the main thread but not in the calling-context stage: %s" % (k, name, ctx_what(line), ctx_out[:100])], True
+        return [], True
+    d = toks(ctx_out)
+    if d.get("ck") != "2,3,2,3": return [], False
+    hd0 = sections(line)[0]
+    exact = k in "ZA" or (k != "P" and not any(("x" in t_ or "." in t_) for t_ in line.split() if t_ not in hd0))
+    ref = ctx_parse(d["cs"])
+    bad = []
+    if main is not None and not ctx_same(ref, main, exact):
+        bad.append("%s:%s:calling-context| %s: a fresh instance evaluated from the main thread with one OpenMP thread gives %s, the call of the normal pass gave %s" % (k, name, ctx_what(line), ctx_fmt(ref), ctx_fmt(main)))
+    for key in ("c2o", "c3o", "c2a", "c3a"):
+        for ti, sv in enumerate(d[key].split(";")):
+            got = ctx_parse(sv)
+            if got == "NOTRUN": return [], False
+            if not ctx_same(got, ref, exact):
+                bad.append("%s:%s:calling-context| %s evaluated by %s%s: %s; serial reference (main thread): %s" % (
+                    k, name, ctx_what(line), CTXWHAT[key], (" -- thread %d" % ti) if key[2] == "a" else "", ctx_fmt(got), ctx_fmt(ref)))
+                break
+        if bad: break
+    return bad, True
+
+def ctx_model_equal(line, mo, io):
+    """extracted C06Ctx model (E, R, N lines on rational data) vs implementation, all contexts"""
+    if mo.split()[1:2] == ["-"]: return True
+    if "MODELEXC" in mo: return False
+    dm, di = toks(mo), toks(io)
+    loose = line.split()[1] == "huber"
+    for key in ("cs", "c2o", "c3o", "c2a", "c3a"):
+        if key not in di or key not in dm: return False
+        ms, xs = dm[key].split(";"), di[key].split(";")
+        if len(ms) != len(xs): return False
+        for a, b in zip(ms, xs):
+            if b in CTXERR: return False
+            pa, pb = a.split(":"), b.split(":")
+            if len(pa) != 3 or len(pb) != 3: return False
+            la, lb = [mq(pa[0]), mq(pa[1])] + mql(pa[2]), [fh(pb[0]), fh(pb[1])] + fhl(pb[2])
+            if len(la) != len(lb) or not all(num_equal(x, y, loose) for x, y in zip(la, lb)): return False
+    return True
+
+
 # ------------------------------------------------------------------------------------------------ spec monitors (implementation output only)
 def shape(line):
     s = sections(line); hd = s[0]
-    if hd[0] in ("L", "D"): return "%s dim=%s n=%d" % (NAMES.get(hd[1], hd[1]), hd[3], len(s[1]) if hd[1] not in VV else len(s[1]) // max(1, int(hd[3])))
+    if hd[0] in ("L", "D"): return "%s dim=%s n=%d" % (NAMES.get(hd[1], hd[1]), hd[3], len(s[1]) if hd[1] not in VV + ("cevf",) else len(s[1]) // max(1, int(hd[3])))
     if hd[0] == "M": return "%s dim=%s threads=%s batches=%s" % (NAMES.get(hd[1], hd[1]), hd[3], hd[4], ",".join(s[1]))
     if hd[0] == "N": return "%s threads=%s LinearModel(%s,%s)>>LinearModel(%s,%s) batches=%s" % (NAMES.get(hd[1], hd[1]), hd[3], hd[4], hd[5], hd[5], hd[6], ",".join(s[1]))
     if hd[0] in ("E", "W", "R", "F", "B"): return "%s threads/seed=%s nin=%s nout=%s%s batches=%s" % (NAMES.get(hd[1], hd[1]), hd[3], hd[4], hd[5], (" " + " ".join(hd[6:])) if len(hd) > 6 else "", ",".join(s[1]))
@@ -428,10 +708,11 @@ def mon_L(line, out, tol):
     hd = sections(line)[0]; name = hd[1]; d = toks(out); bad = []
     if "v" not in d: return ["L:%s:exception| loss call failed on `%s`: %s" % (name, shape(line), out[:200])]
     v = fh(d["v"]); ev = fhl(d["ev"])
+    if name in F32: tol = 2e-6          # single-precision arithmetic inside the loss
     exact = tol == 0
     eq = (lambda a, b, sc=0.0: a == b or (math.isnan(a) and math.isnan(b))) if exact else (lambda a, b, sc=0.0: close(a, b, sc, tol))
     sc = max([abs(x) for x in ev if finite(x)] + [0.0])
-    if name in ("ce", "cev"):
+    if name in CEFAM:
         # log-sum-exp minus the label logit: the result is a difference of numbers of the size of the logits (conditioning, not a defect)
         try: sc = max([sc] + [abs(float(pq(x))) for x in sections(line)[2]])
         except (OverflowError, ValueError): pass
@@ -511,7 +792,7 @@ def mon_case(lines, outs):
         s = sections(line); hd = s[0]; k = hd[0]; d = toks(out)
         if k != "A" and (out.split()[1:2] in (["EXC"], ["STDEXC"]) or (k not in "G" and "v" not in d and "m" not in d and "z" not in d)):
             bad.append("%s:%s:exception| `%s`: %s" % (k, hd[1], shape(line), out[:200])); continue
-        if k == "L": bad += mon_L(line, out, tol)
+        if k == "L": bad += mon_L(line, out, tol); bad += mon_ref(line, out)
         elif k == "D": bad += mon_D(line, out)
         elif k == "M":
             v = fh(base["v"]); n = len(fhl(base["ev"])); m = fh(d["m"])
@@ -733,6 +1014,7 @@ def main():
         ck.oblige("harness builds against /repo", False, err); ck.finish()
     tmpd = os.path.join(BUILD, "tmp", PID); os.makedirs(tmpd, exist_ok=True)
     big = ck.tier == "thorough"; rng = ck.rng
+    rng2 = random.Random(ck.seed * 7919 + 6064)      # streams added in the fourth round
 
     zcases = []
     if ck.replay:
@@ -756,13 +1038,19 @@ def main():
         cases += [gen_reg_case(rng) for _ in range(100 * k)]
         cases += [gen_auc_case(rng) for _ in range(100 * k)]
         zcases += [gen_zw_case(rng) for _ in range(100 * k)]
+        # fourth round: extreme arguments (cross-entropy family; the other table losses exactly) and the calling-context stream
+        cases += [gen_extreme_case(rng2) for _ in range(300 * k)]
+        cases += [gen_extreme_exact_case(rng2) for _ in range(150 * k)]
+        cases += [gen_ef_case(rng2, True, ctx=True) for _ in range(60 * k)]
+        cases += [gen_ef_case(rng2, False, ctx=True) for _ in range(40 * k)]
 
     def search(dcases):
         out = []
         for c in dcases:
             k0 = c[0][0]
             for _ in range(150):
-                if k0 == "L": out.append(gen_loss_case(rng, True))
+                if k0 == "L" and c[0].split()[1] in CEFAM: out.append(gen_extreme_case(rng2))
+                elif k0 == "L": out.append(gen_loss_case(rng, True) if _ % 3 else gen_extreme_exact_case(rng2))
                 elif k0 in "EWRB": out.append(gen_ef_case(rng, True))
                 elif k0 == "N": out.append(gen_net2_case(rng))
                 elif k0 == "G": out.append(gen_reg_case(rng))
@@ -915,8 +1203,79 @@ def main():
         ck.oblige("NegativeLogLikelihood (LinearModel with one output) = C06ExtModel.nll_eval / nll_evald at 1e-12; value = -(mean log max(p, 1e-100)) from both entry points, derivative = -(mean (1/p) dp/dtheta), invariant under partition and thread count, on %d cases" % len(pcases),
                   pfail == 0 and not pdis, "" if pfail == 0 and not pdis else "%d cases fail the monitor, %d disagree with the model" % (pfail, len(pdis)))
 
+    # ---------------- NegativeLogLikelihood on extreme probabilities (clamp at 1e-100, denormal, zero, negative, huge): spec monitor only
+    pxcases = [] if ck.replay else [gen_nll_extreme_case(rng2) for _ in range(80 * (8 if big else 1))]
+    pxo = run_cases(exe, pxcases, os.path.join(tmpd, "px_in.txt"), env=OMPENV) if pxcases else []
+    pxfail = 0; seen = set()
+    for ci, (c, (o, rc, e)) in enumerate(zip(pxcases, pxo)):
+        msgs = [("P:nll:crash", "implementation crashed on `%s`" % c[0])] if rc != 0 or len(o) != len(c) else mon_P(c, o)
+        for key, msg in msgs[:1]:
+            if ck.match_known(key) is None: pxfail += 1
+            if key not in seen:
+                seen.add(key)
+                cf = ck.write_replay("px_%s.txt" % key.split(":")[2], "\n".join(c) + "\n")
+                ck.violation(key, {"case_file": cf, "case": c, "implementation_output": o, "monitor": msg, "replay_cmd": "python3 tools/c06.py --replay %s" % cf},
+                             "spec monitor fails on the implementation (extreme probabilities): " + msg)
+    if pxcases:
+        ck.oblige("NegativeLogLikelihood on probabilities at / below / above the clamp 1e-100, denormal, zero, negative, 1e300, DBL_MAX: value and derivative as stated, both entry points, every partition and thread count, on %d cases" % len(pxcases), pxfail == 0, "" if pxfail == 0 else "%d cases fail the monitor" % pxfail)
+
+    # ---------------- calling-context stage: every line that evaluates something over a data set, again from inside parallel regions
+    ran = []
+    for cs_, outs_ in ((cases, io if cases else []), (zcases, zo), (pcases, po), (pxcases, pxo)):
+        for c, (o, rc, e) in zip(cs_, outs_):
+            if rc == 0 and len(o) == len(c) and any(l[0] in CTXKINDS for l in c): ran.append((c, o))
+    cfail = 0; cdis = []; teams_ok = True; nctx = 0
+    if ran:
+        flat_l = [l for c, o in ran for l in c]; flat_o = [x for c, o in ran for x in o]; owner = [c for c, o in ran for l in c]
+        rcx, xo, ex = run_lines(exe, flat_l, os.path.join(tmpd, "ctx_in.txt"), env=OMPENV, args=("ctx", "256"))
+        if rcx != 0 or len(xo) != len(flat_l):
+            # the stage died: repeat line by line to find the case
+            po1 = run_cases(exe, [c for c, o in ran], os.path.join(tmpd, "ctx1_in.txt"), env=OMPENV, args=("ctx", "1"))
+            xo = []
+            for (c, o), (o1, rc1, e1) in zip(ran, po1):
+                if rc1 != 0 or len(o1) != len(c):
+                    if cfail == 0:
+                        cf = ck.write_replay("ctx_crash.txt", "\n".join(c) + "\n")
+                        ck.violation("%s:calling-context-crash" % c[0][0], {"case_file": cf, "case": c, "stderr": e1, "replay_cmd": "python3 tools/c06.py --replay %s" % cf},
+                                     "the implementation crashes (rc=%s) when `%s` ... is evaluated inside a parallel region (harness/c06_loss.cpp ctx stage) %s" % (rc1, shape(c[0]), e1.strip()[-200:]))
+                    cfail += 1; xo += ["%s -" % l[0] for l in c]
+                else: xo += o1
+        rcm, xm, em = run_lines(model, flat_l, os.path.join(tmpd, "ctx_model_in.txt"), args=("ctx", "0"))
+        if rcm != 0 or len(xm) != len(flat_l): raise RuntimeError("model driver failed in the calling-context stage: %s" % em[-300:])
+        seen = set()
+        for l, o, x, m_, c in zip(flat_l, flat_o, xo, xm, owner):
+            if l[0] not in CTXKINDS: continue
+            msgs, tok = mon_ctx(l, o, x)
+            teams_ok = teams_ok and tok
+            if "cs=" in x: nctx += 1
+            if msgs:
+                key = msgs[0].split("|")[0]
+                if ck.match_known(key) is None: cfail += 1
+                if key not in seen and len(seen) < 4:
+                    seen.add(key)
+                    small = [l] if l is c[0] or l[0] not in "BM" else [c[0], l]      # B and M lines are read against the header line of their case
+                    rc1, o1, _ = run_lines(exe, small, os.path.join(tmpd, "s_ctx.txt"), env=OMPENV, args=("ctx", "256"))
+                    cf = ck.write_replay("ctx_%d.txt" % len(ck.violations), "\n".join(small) + "\n")
+                    ck.violation(key, {"case_file": cf, "case": small, "main_thread_output": o, "calling_context_output": x, "calling_context_output_alone": o1, "model_output": m_,
+                                       "replay_cmd": "python3 tools/c06.py --replay %s" % cf},
+                                 "spec monitor fails on the implementation (calling context): " + msgs[0].split("|", 1)[1].strip())
+            elif tok and not ctx_model_equal(l, m_, x): cdis.append((l, m_, x))
+        if cdis and not cfail:
+            l, m_, x = cdis[0]
+            cf = ck.write_replay("ctx_corr.txt", l + "\n")
+            ck.violation("correspondence", {"case_file": cf, "case": [l], "model_output": m_, "implementation_output": x, "broken": "correspondence C06Ctx (errfn_ctx) vs /repo",
+                                            "replay_cmd": "python3 tools/c06.py --replay %s" % cf},
+                         "correspondence C06Ctx.errfn_ctx vs ErrorFunction inside a parallel region no longer checks (outputs differ on %d lines, first: `%s`); the spec monitor passes" % (len(cdis), shape(l)), no_input=True)
+        ck.oblige("calling-context stage: the parallel regions of the harness had the requested team sizes 2,3,2,3 (num_threads clause, independent of OMP_NUM_THREADS)", teams_ok,
+                  "" if teams_ok else "the OpenMP runtime did not deliver the requested teams (OMP_THREAD_LIMIT?)")
+        ck.oblige("calling context: ErrorFunction (plain, mini-batch, weighted, regularised; linear, two-layer, tanh, logistic models), AbstractLoss::eval(Data,Data), ZeroOneLoss weighted eval, NegativeAUC, "
+                  "NegativeLogLikelihood evaluated by one thread of a parallel region of 2 / 3 threads and by every thread at the same time on its own copy = serial reference = call from the main thread "
+                  "(exact on dyadic data, 1e-12 otherwise); C06Ctx.errfn_ctx (nested assignment) = /repo on the E, R, N lines; %d lines" % nctx, cfail == 0 and not cdis,
+                  "" if cfail == 0 and not cdis else "%d lines fail the monitor, %d disagree with the model" % (cfail, len(cdis)))
+    ck.notes["calling_context_lines"] = nctx
+
     # ---------------- coverage
-    allc = cases + zcases + scases + pcases
+    allc = cases + zcases + scases + pcases + pxcases
     flat = [l for c in allc for l in c]
     kinds = {}
     for l in flat: kinds[l[0]] = kinds.get(l[0], 0) + 1
